@@ -264,9 +264,19 @@ void run(size_t idx) {
 		// an SSE file carries the weights twice (NiSkinData and BSTriShape vertex data): keep the two views consistent (<= 4 influences)
 		if (idx % 2) ao.maxInfluences = std::min(ao.maxInfluences, 4);
 		ao.extras = idx % 2 == 0;
-		ao.modelSpace = idx % 8 == 5;
+		ao.modelSpace = idx % 8 == 5 || idx % 8 == 2;
 		bool unreferencedVerts = idx % 16 == 15;   // labelled stress dimension: vertices that no triangle uses
 		ao.everyVertexUsed = !unreferencedVerts;
+		if (idx % 10 == 6) {
+			// more bones in one partition than SE allows (80): the conversion has to split partitions
+			ao.skinned = 1;
+			ao.shapes = 1;
+			ao.bones = 85 + (int)rng.below(70);
+			ao.nv = 150 + (int)rng.below(150);
+			ao.nt = 40 + (int)rng.below(120);
+			ao.maxInfluences = std::max(ao.maxInfluences, 2);
+			R_stat("models_with_more_than_80_bones");
+		}
 		ApiModel m = buildApiModel(seed, (int)idx, &ao);
 		if (!m.ok) return;
 		if (idx % 7 == 0 && m.nif->GetShapes().size() > 1) {   // sibling name clash
